@@ -121,28 +121,42 @@ Theorem C07_setup_nonvacuous :
 Proof. exact setup_nonvacuous. Qed.
 
 (* "kernprof terminates promptly": for every option record - with or without -i -,
-   target, argument list and schedule of timer firings while the program runs, no
-   threading.Timer of a RepeatedTimer is pending when main has returned.
-   (Before fix 204c2e5 this was refuted: the timer was constructed twice.) *)
+   target, argument list and EVERY behaviour of the timer threads, both while the
+   program runs (`during`) and after main has stopped the timer (`after`) - complete
+   firings, firings whose dump is still in flight when the program ends, dumps
+   returning late - no threading.Timer of a RepeatedTimer is pending once main has
+   returned and the dumps in flight have finished.  Rests on _run re-arming the
+   timer BEFORE the dump (order_in_code = RearmFirst, tied by the in-process run with
+   a blocked dump) and on the single construction (fix 204c2e5). *)
 Theorem C07_no_helper_thread_after_run :
-  forall w o t args tr sched,
-    kern_run w o t args = Some tr -> live_after_main sched tr = 0%nat.
+  forall w o t args tr (during after : list thop),
+    kern_run w o t args = Some tr -> live_after_main order_in_code during after tr = 0%nat.
 Proof. exact no_helper_thread_after_run. Qed.
 
-(* -i really creates a timer that fires and is pending until it is stopped *)
+(* -i really creates a timer; a firing whose dump is in flight at the stop is covered *)
 Theorem C07_timer_nonvacuous :
   exists tr, kern_run w_ex o_interval1 (TScript (rel ["prog.py"])) [] = Some tr
-             /\ timer_ops [0%nat; 0%nat] tr = [TCreate; TFire 0; TFire 0; TStopRt]
-             /\ live_threads (trun [TCreate; TFire 0; TFire 0]) = 1%nat
-             /\ live_after_main [0%nat; 0%nat] tr = 0%nat.
+             /\ timer_ops [HFire 0; HFireStart 0] tr = [TCreate; TThread (HFire 0); TThread (HFireStart 0); TStopRt]
+             /\ live_threads RearmFirst (trun RearmFirst [TCreate; TThread (HFire 0); TThread (HFireStart 0)]) = 1%nat
+             /\ live_after_main order_in_code [HFire 0; HFireStart 0] [HDumpEnd 0] tr = 0%nat.
 Proof. exact timer_nonvacuous. Qed.
 
-(* the bookkeeping itself: one construction + stop leaves nothing; the former
-   double construction left exactly one Timer for every schedule *)
+(* the bookkeeping itself, for every interleaving of the timer threads with the stop *)
 Theorem C07_single_timer_stops :
-  forall sched, live_threads (trun ([TCreate] ++ map TFire sched ++ [TStopRt])) = 0%nat.
+  forall during after : list thop,
+    live_threads RearmFirst (trun RearmFirst ([TCreate] ++ map TThread during ++ [TStopRt] ++ map TThread after)) = 0%nat.
 Proof. exact single_timer_stops. Qed.
 
+(* the order matters: dumping before re-arming leaves a Timer behind exactly when the
+   program ends while a dump is in flight (stop() cancels a Timer that has fired) *)
+Theorem C07_dump_before_rearm_would_leak :
+  live_threads DumpFirst (trun DumpFirst [TCreate; TThread (HFireStart 0); TStopRt; TThread (HDumpEnd 0)]) = 1%nat
+  /\ live_threads DumpFirst (trun DumpFirst [TCreate; TThread (HFireStart 0); TStopRt]) = 1%nat
+  /\ live_threads DumpFirst (trun DumpFirst [TCreate; TThread (HFire 0); TThread (HFire 0); TStopRt]) = 0%nat.
+Proof. exact dump_first_leaks. Qed.
+
+(* and so did the former double construction *)
 Theorem C07_double_creation_would_leak :
-  forall sched, live_threads (trun ([TCreate; TCreate] ++ map TFire sched ++ [TStopRt])) = 1%nat.
+  live_threads RearmFirst (trun RearmFirst [TCreate; TCreate; TThread (HFire 0); TThread (HFire 1); TStopRt]) = 1%nat
+  /\ live_threads RearmFirst (trun RearmFirst [TCreate; TCreate; TStopRt]) = 1%nat.
 Proof. exact double_creation_leaks. Qed.
